@@ -106,7 +106,7 @@ impl Mw for Adapter {
             }
         }
         let fut = svc.call(req);
-        Some(Box::pin(async move { render(fut.await) }))
+        Some(held(fut, render))
     }
 
     fn probe(&mut self, what: &str, _kv: &Kv) {
